@@ -86,7 +86,12 @@ def run_case(case):
             hz.__enter__()
         try:
             molecule, es = sp.build(mols, params, pad_extra=pad)
-            if act:
+            if act and case.get("mixed_active"):
+                # per-molecule request mixing a ground-state and an excited molecule in one call
+                import torch as _t
+
+                molecule.active_state = _t.as_tensor([0] * (len(mols) - 1) + [act], dtype=_t.int64)
+            elif act:
                 molecule.active_state = act
             molecule.verbose = False
             kw = {} if case["force"] else {"do_force": False}
@@ -121,7 +126,8 @@ def run_case(case):
             rows.append(None)
             continue
         ids = O.identities(
-            method, m, obs, r, F=F, h=h, uhf=uhf, active=act, sp2_tol=SP2_TOL if case["sp2"] else None, nbf=nbf,
+            method, m, obs, r, F=F, h=h, uhf=uhf, active=(act if (not case.get("mixed_active") or r == len(mols) - 1) else 0),
+            sp2_tol=SP2_TOL if case["sp2"] else None, nbf=nbf,
             has_dipole=(method != "PM6"), exc_tol=1e-9 if case["force"] else 1e-6,
         )  # fmt: skip
         rows.append(ids)
@@ -182,6 +188,10 @@ def lattice(tier, seed):
                                 if tier == "quick" and orient == "doc":
                                     continue
                                 add(method, name, solver, False, False, ex, force, layout, orient)
+                # one call that mixes a ground-state copy (row 0) with an excited copy (row 1), energy-only path
+                for ex in (("cis", 1), ("cis", 2)):
+                    add(method, name, "adaptive", False, False, ex, False, "pair", "generic")
+                    cases[-1]["mixed_active"] = True
     for name in PM6_MOLS:
         for solver in solvers:
             for layout, orient in layouts:
@@ -193,7 +203,7 @@ def key(c):
     ex = "S0" if not c["excited"] else f"{c['excited'][0]}{c['excited'][1]}"
     return (
         f"{c['method']}|{c['spec']['mol']}|{c['spec']['orient']}|{c['solver']}|sp2={int(c['sp2'])}|"
-        f"{'UHF' if c['uhf'] else 'RHF'}|{ex}|{'F' if c['force'] else 'E'}|{c['layout']}"
+        f"{'UHF' if c['uhf'] else 'RHF'}|{ex}|{'F' if c['force'] else 'E'}|{c['layout']}" + ("|active=[0,k]" if c.get("mixed_active") else "")
     )
 
 
